@@ -26,6 +26,7 @@ MISSED_AT_FIRST = set("""C13-9 C20-8 C06-7 C06-8 C14-7 C14-8 C01-8 C01-9 C11-9 C
 C20-10 C20-11 C04-12 C03-12 C10-11 C10-12 C08-12 C02-11 C16-11 C16-12 C11-11 C09-11 C12-10 C17-10 C17-11 C07-10 C07-11 C01-12 C06-10 C06-11 C19-10 C19-11 C19-12
 C09-13 C05-15 C11-14 C04-13 C04-14 C08-14 C12-13 C12-14 C03-15 C17-13 C17-15 C18-14 C07-13 C07-15 C01-15 C06-13 C06-14 C06-15 C19-14 C19-15
 C13-19 C13-21 C06-19 C06-20 C07-19 C20-20 C14-19 C14-20 C14-21 C05-19 C10-19 C17-19 C17-21 C11-19 C01-21 C12-21 C09-21
+C05-22 C19-22
 C13-16 C18-16 C18-17 C08-18 C15-18 C11-16 C04-17 C17-16 C17-17 C19-16 C19-17 C19-18 C07-17 C06-16 C06-18 C03-16 C03-17 C05-16""".split())
 
 
